@@ -38,6 +38,9 @@ type Case struct {
 	// with := as its own: evaluated as a chunk, such a statement redefines the
 	// package-level name, so these names are left out of the final state.
 	Shadowed []string `json:"shadowed,omitempty"`
+	// Expect is the output computed by the generator's model (type-growth
+	// histories only): a whole evaluation which differs from it is not compared.
+	Expect string `json:"expect,omitempty"`
 }
 
 type syncBuf struct {
@@ -614,8 +617,9 @@ type replayCase struct {
 
 func run(ctx *vf.Ctx) {
 	cfg := config(ctx)
-	nProg := ctx.Cases * 3 / 4
-	nRedef := ctx.Cases - nProg
+	nProg := ctx.Cases * 9 / 16
+	nGrow := ctx.Cases / 4
+	nRedef := ctx.Cases - nProg - nGrow
 	ok := ctx.Rapid("piecewise", 0, nProg, 60*time.Second, func(t *rapid.T) {
 		c, labels := genCase(t, cfg)
 		ctx.Done()
@@ -637,6 +641,39 @@ func run(ctx *vf.Ctx) {
 		ctx.Sample(map[string]any{"variant": c.Variant, "decl_chunks": len(c.Decls), "stmt_chunks": len(c.Stmts), "first_stmt_chunk": first(c.Stmts)}, 3)
 		if sig != "" {
 			ctx.CaseFail(t, sig, msg, replayCase{Program: c})
+		}
+	})
+	if !ok {
+		ctx.DoneN(nRedef + nGrow)
+		return
+	}
+	ok = ctx.Rapid("typegrow", 2, nGrow, 30*time.Second, func(t *rapid.T) {
+		c, labels := genGrow(t)
+		ctx.Done()
+		if msg := progen.TypeCheck(c.Src); msg != "" {
+			ctx.Class("grow:generator-not-valid-go")
+			return
+		}
+		ctx.Eval()
+		ctx.Class("history:typegrow")
+		ctx.Class("variant:" + c.Variant)
+		if ref := whole(c, "eval", ctx.Scratch); ref.stdout != c.Expect || ref.err != "" {
+			// the whole program itself does not behave as compiled Go: C01 / C05 matter
+			ctx.Class("grow:whole-differs-from-model")
+			return
+		}
+		nt := false
+		for _, l := range labels {
+			ctx.Class(l)
+			nt = nt || l == "grow:use-of-method-declared-after-a-use"
+		}
+		if nt {
+			b, _ := json.Marshal(c)
+			ctx.Nontrivial(string(b))
+		}
+		ctx.Sample(map[string]any{"variant": c.Variant, "typegrow_chunks": c.Decls[1:]}, 2)
+		if sig, msg := c.check(ctx.Scratch); sig != "" {
+			ctx.CaseFail(t, "typegrow/"+sig, msg, replayCase{Program: c})
 		}
 	})
 	if !ok {
@@ -703,13 +740,13 @@ func init() {
 	vf.Register(&vf.Check{
 		ID:    "C11",
 		Level: "exploration",
-		Rule:  "case A = a program from internal/progen (REPL profile: no goto, no early return from main, no deliberate fault) x a drawn cut of its declarations and of its top-level main statements into consecutive chunks x one variant of {successive Eval calls, Compile+Execute per chunk, whole Compile+Execute, go/parser with the interpreter FileSet + CompileAST, EvalPath on a real temp file, EvalPath on a MapFS}; oracle: stdout, ending and package variables equal those of one Eval of the whole source (itself tied to compiled Go by C01); case B = a history of define/redefine/use actions on linear functions f0..f3 and a counter variable, compared with a model; non-trivial A = at least 4 chunks, B = a use after a redefinition; distinct by full case content",
+		Rule:  "case A = a program from internal/progen (REPL profile: no goto, no early return from main, no deliberate fault) x a drawn cut of its declarations and of its top-level main statements into consecutive chunks x one variant of {successive Eval calls, Compile+Execute per chunk, whole Compile+Execute, go/parser with the interpreter FileSet + CompileAST, EvalPath on a real temp file, EvalPath on a MapFS}; oracle: stdout, ending and package variables equal those of one Eval of the whole source (itself tied to compiled Go by C01); case B = a history of define/redefine/use actions on linear functions f0..f3 and a counter variable, compared with a model; case C = a type-growth history: the methods of a struct type declared one chunk at a time (value and pointer receivers), interleaved with interface declarations and with package-level variables whose initialisers convert T, *T, embedding struct and pointer forms to these interfaces (parameter passing, or assertion from a non-empty interface with a position-independent outcome) and call the methods; oracle: whole Eval of the same text, itself required to equal the output computed by the generator; non-trivial A = at least 4 chunks, B = a use after a redefinition, C = a use requiring a method declared after an earlier use; distinct by full case content",
 		Assumptions: []string{
 			"turning main-body locals into package variables cannot change meaning because generated names are unique",
 			"chunks are homogeneous (declarations or statements), as the incremental parser requires",
 			"constructs behind recorded known findings of C01 are switched off",
 		},
-		Cases:  map[string]int{"quick": 480, "thorough": 12000},
+		Cases:  map[string]int{"quick": 640, "thorough": 16000},
 		Shards: map[string]int{"quick": 8, "thorough": 16},
 		Run:    run,
 		Replay: replay,
